@@ -376,6 +376,15 @@ const LIT_TEMPLATES: &[&str] = &[
     "* ID (\"k\" {{N}}\r\nabc)\r\n",
 ];
 
+/// things that look like numbers to a lenient conversion but are not 1*DIGIT ('.' and ',' are left out:
+/// they are separators of the grammar itself in section paths and uid sets)
+const DECORATED: &[&str] = &[
+    "-1", "-0", "-5", "-100", "-2147483648", "-2147483649", "-4294967295", "-4294967296",
+    "-9223372036854775808", "-18446744073709551615", "+1", "+0", "+5", "+4294967295", "+4294967296",
+    "0x10", "0X1F", "0b11", "0o17", "1e3", "1E3", "1e0", "1_000", "1'000",
+    "١٢٣", "１２３", "²", "1-", "1+", "--1", "-+1", "- 1", "-",
+];
+
 fn boundary_numerals(bits: u32) -> Vec<(u128, bool)> {
     // (value, in range)
     let lim: u128 = 1u128 << bits;
@@ -508,6 +517,49 @@ fn run_c13(ctx: &mut Ctx, rng: &mut Rng, thorough: bool) {
                         );
                     }
                 }
+            }
+        }
+    }
+    // decorated numerals: a numeric field is 1*DIGIT and nothing else. A sign, a radix prefix, an
+    // exponent, a fraction, a separator or a non-ASCII digit in that position is not a number of the
+    // field's range: accepting it means some other conversion (signed, wider, radix-guessing) sits
+    // behind the field, and its result can only be a value the text does not denote
+    // (-1 read as 4294967295). Judged by the correspondence with the model, and for the plain
+    // positions by the verdict, which has to be a parse error.
+    for (t, bits, kind) in NUM_TEMPLATES {
+        for d in DECORATED {
+            let input = subst(t, d);
+            let v = ctx.eval(&input, "c13-decorated");
+            ctx.log.nontrivial(&hex(&input));
+            ctx.log.count("c13:decorated");
+            let ok = match kind {
+                'r' => v == "ERR",
+                _ => {
+                    let body = &input[..input.len() - 2];
+                    match body.iter().position(|&c| c == b'[') {
+                        Some(p) => {
+                            let ser = v.splitn(3, ' ').nth(2).unwrap_or("").to_string();
+                            v == "ERR"
+                                || (v.starts_with("OK")
+                                    && ser.contains(&format!("_ (S x{})", hex(&body[p..])))
+                                    && consumed_of(&v) == Some(input.len()))
+                        }
+                        None => v == "ERR",
+                    }
+                }
+            };
+            if !ok {
+                ctx.fail(
+                    "decorated-numeral-accepted",
+                    format!(
+                        "{} is not a numeral of the {}-bit field in {} but the result is {}",
+                        d,
+                        bits,
+                        show_bytes(t.as_bytes()),
+                        clip(&v)
+                    ),
+                    &[&input],
+                );
             }
         }
     }
